@@ -54,10 +54,13 @@ def work(case):
                 pos = s.end
             out["spans_ok"] = ok and pos == len(out["map_raw"])
         out["indexed"] = indexed_edit_case(case, data, out["raw"])
+        out["appended"] = append_case(case, data, out["raw"])
         ix = out["indexed"]
         out["hyp"] = {"indexed_edit": bool(ix), "indexed_edit_inside_pending_insertion": bool(ix and ix.get("in_ins")),
                       "indexed_edit_crossing_line_break": bool(ix and ix.get("crosses_break")),
-                      "indexed_edit_range_with_markers": bool(ix and ix.get("with_markers"))}
+                      "indexed_edit_range_with_markers": bool(ix and ix.get("with_markers")),
+                      "insertion_at_paragraph_end_offset": bool(out["appended"]),
+                      "insertion_behind_paragraph_final_deletion": bool(out["appended"] and out["appended"]["ends_with_deletion"])}
     except Exception as e:
         out["err"] = f"{type(e).__name__}: {e}"
     return out
@@ -121,6 +124,69 @@ def indexed_edit_case(case, data, raw):
     return None
 
 
+def append_case(case, data, raw):
+    """Text inserted at the offset where a paragraph's raw rendering ends (an insertion addressed by an offset, what the
+    text-file workflow produces for appended words) must become the end of that paragraph's text - also when the
+    paragraph ends with another reviewer's pending deletion and its metadata."""
+    rng = random.Random((case["seed"] << 16) ^ case["index"] ^ 0x2f3d)
+    doc = case["doc"]
+    if any("tbl" in b for b in doc["body"]) and rng.random() < 0.5:
+        pass
+    pvs = [editgen.ParaView(si, pi, p) for pi, (si, p) in enumerate(sem.all_paragraphs(doc))]
+    body = sem.body_story_index(doc)
+    top = [id(b["p"]) for b in doc["body"] if "p" in b]
+    cands = [pv for pv in pvs if pv.si == body and id(pv.p) in top and pv.chars]
+    # prefer paragraphs that end with a pending deletion
+    enders = [pv for pv in cands if pv.chars[-1]["state"] == "del"]
+    rng.shuffle(cands)
+    for pv in ([rng.choice(enders)] if enders and rng.random() < 0.8 else []) + cands[:4]:
+        txt = "".join(c["c"] for c in pv.chars)
+        words = [(m.start(), m.end(), m.group()) for m in WORD.finditer(txt)]
+        words = [w for w in words if editgen.count_occ(raw, w[2]) == 1]
+        if not words:
+            continue
+        w = words[-1]
+        if any(c["c"] == "\n" for c in pv.chars[w[0]:]):
+            continue
+        p0 = raw.find(w[2])
+        e = raw.find("\n\n", p0)
+        e = len(raw) if e < 0 else e
+        tail = raw[p0:e]
+        if " | " in tail or "\n" in re.sub(r"\{>>.*?<<\}", "", tail, flags=re.S):
+            continue
+        # the word must have been found where this paragraph has it: from there to the end of the block the raw text,
+        # metadata and markers aside, is the rest of this paragraph ('oscar' also occurs in 'oscar1' elsewhere)
+        if sem.skeleton(re.sub(r"\{>>.*?<<\}", "", tail, flags=re.S)) != sem.skeleton(txt[w[0]:]):
+            continue
+        new = rng.choice([" Zq9 appended", " Wy8", ", Vx7 more"])
+        edit = {"target": "", "new": new, "comment": None, "index": e}
+        r = engine_run.run_edits(data, [edit])
+        exp = "".join(c["c"] for c in pv.chars if c["state"] != "del") + new
+        return {"edit": {"new": new, "index": e}, "pi": pv.pi, "expected": exp, "ends_with_deletion": pv.chars[-1]["state"] == "del",
+                "res": {k: v for k, v in r.items() if k != "out_bytes"}}
+    return None
+
+
+def oracle_append(res):
+    ap = res.get("appended")
+    if not ap:
+        return []
+    r = ap["res"]
+    if r["err"]:
+        return [f"insertion addressed by offset raised {r['err']}"]
+    if (r["applied"], r["skipped"]) != (1, 0):
+        return [f"an insertion addressed by the offset at the end of a paragraph was not applied: {(r['applied'], r['skipped'])}"]
+    got = editgen.accepted_paragraph_texts(r["out_doc"])
+    exp = list(editgen.accepted_paragraph_texts(res["case"]["doc"]))
+    exp[ap["pi"]] = ap["expected"]
+    if got != exp:
+        k = next((j for j, (x, y) in enumerate(zip(got, exp)) if x != y), None)
+        return [f"text inserted at offset {ap['edit']['index']} (end of paragraph {ap['pi']}"
+                f"{', behind a pending deletion' if ap['ends_with_deletion'] else ''}) is not the end of that paragraph's accepted text: "
+                f"paragraph {k} is {got[k] if k is not None and k < len(got) else None!r}, expected {exp[k] if k is not None else None!r}"]
+    return engine_oracles.oracle_reversible(res["case"]["doc"], r["out_doc"])[:1]
+
+
 def oracle_indexed(res):
     ix = res.get("indexed")
     if not ix:
@@ -161,6 +227,7 @@ def oracle(res):
     if res.get("spans_ok") is False:
         fails.append("the engine's spans do not partition its text / a real span's text is not in its run")
     fails.extend(oracle_indexed(res))
+    fails.extend(oracle_append(res))
     return fails
 
 
